@@ -45,6 +45,7 @@ type Ctx struct {
 	violations []Violation
 	infra      []string
 	built      map[string]string
+	Why        map[int]string // id -> the trace spec's reason for rejecting it
 }
 
 type Evidence struct {
@@ -397,17 +398,17 @@ type TLCOpts struct {
 }
 
 type TLCResult struct {
-	Out        string
-	Generated  int
-	Distinct   int
-	OK         bool     // finished with "No error has been found" / simulation finished
-	Violated   string   // name of the violated invariant/property, if any
-	ErrorText  string   // first "Error:" block
-	Printed    []string // lines printed by Print/PrintT (raw)
-	Dir        string
-	CoverageZ  []string // (with -coverage) actions never taken
-	WallS      float64
-	TimedOut   bool
+	Out       string
+	Generated int
+	Distinct  int
+	OK        bool     // finished with "No error has been found" / simulation finished
+	Violated  string   // name of the violated invariant/property, if any
+	ErrorText string   // first "Error:" block
+	Printed   []string // lines printed by Print/PrintT (raw)
+	Dir       string
+	CoverageZ []string // (with -coverage) actions never taken
+	WallS     float64
+	TimedOut  bool
 }
 
 var (
@@ -575,11 +576,22 @@ func (c *Ctx) Judge(spec, cfg string, cases []map[string]any, shards int) (faile
 				u := Unquote(ln)
 				if strings.HasPrefix(u, "FAILED ") {
 					found = true
-					var ids []int
-					if err := json.Unmarshal([]byte(strings.TrimPrefix(u, "FAILED ")), &ids); err != nil {
+					var recs []struct {
+						ID  int    `json:"id"`
+						Why string `json:"why"`
+					}
+					if err := json.Unmarshal([]byte(strings.TrimPrefix(u, "FAILED ")), &recs); err != nil {
 						c.Infra("cannot parse FAILED line %q: %v", u, err)
 					} else {
-						o.failed = ids
+						for _, rc := range recs {
+							o.failed = append(o.failed, rc.ID)
+							c.mu.Lock()
+							if c.Why == nil {
+								c.Why = map[int]string{}
+							}
+							c.Why[rc.ID] = rc.Why
+							c.mu.Unlock()
+						}
 						o.ok = true
 					}
 				}
@@ -664,7 +676,9 @@ func (c *Ctx) JudgeAndReport(spec, cfg string, cases []map[string]any, shards in
 			c.Infra("case %d rejected once but accepted on re-execution (not reproduced)", id)
 			continue
 		}
+		again["why"] = c.Why[id]
 		sig, what := sigOf(again)
+		what = "rejected by " + spec + ": " + c.Why[id] + "\n" + what
 		seenSig[sig]++
 		if seenSig[sig] <= 3 {
 			c.Violate(sig, what, map[string]string{"case.json": JSON(again), "spec.txt": spec + " / " + cfg})
